@@ -71,6 +71,29 @@ func byteLevel(r *mc.Run, scen string, n int, pairs bool, roundtrip func(b []byt
 	}
 }
 
+// dirty fills every field of the struct p points to with a non-zero pattern: a
+// destination that was used for an earlier, different message.
+func dirty(p any) {
+	var fillv func(v reflect.Value)
+	fillv = func(v reflect.Value) {
+		switch v.Kind() {
+		case reflect.Struct:
+			for i := 0; i < v.NumField(); i++ {
+				fillv(v.Field(i))
+			}
+		case reflect.Array:
+			for i := 0; i < v.Len(); i++ {
+				fillv(v.Index(i))
+			}
+		case reflect.Uint8, reflect.Uint16, reflect.Uint32, reflect.Uint64:
+			v.SetUint(0xa5a5a5a5a5a5a5a5 & (1<<(8*uint(v.Type().Size())) - 1))
+		case reflect.Int8, reflect.Int16, reflect.Int32, reflect.Int64:
+			v.SetInt(0x5a5a5a5a5a5a5a5a & (1<<(8*uint(v.Type().Size())-1) - 1))
+		}
+	}
+	fillv(reflect.ValueOf(p).Elem())
+}
+
 func ntpRT(b []byte) (string, bool) {
 	var p, q ntp.Packet
 	if err := ntp.DecodePacket(&p, b); err != nil {
@@ -86,6 +109,10 @@ func ntpRT(b []byte) (string, bool) {
 	}
 	if err := ntp.DecodePacket(&q, e); err != nil || q != p {
 		return fmt.Sprintf("decode(encode(p)) = %+v, p = %+v", q, p), false
+	}
+	dirty(&q)
+	if err := ntp.DecodePacket(&q, e); err != nil || q != p {
+		return fmt.Sprintf("decode(encode(p)) into a used destination = %+v, p = %+v", q, p), false
 	}
 	// setters agree with accessors
 	var s ntp.Packet
@@ -110,6 +137,10 @@ func csptpMsgRT(b []byte) (string, bool) {
 	}
 	if err := csptp.DecodeMessage(&q, e); err != nil || q != m {
 		return "decode(encode(m)) != m", false
+	}
+	dirty(&q)
+	if err := csptp.DecodeMessage(&q, e); err != nil || q != m {
+		return "decode(encode(m)) into a used destination != m", false
 	}
 	return "", true
 }
@@ -136,6 +167,10 @@ func csptpReqRT(b []byte) (string, bool) {
 	if err := csptp.DecodeRequestTLV(&q, e); err != nil || q != v {
 		return fmt.Sprintf("decode(encode(v)) = %+v (%v), v = %+v", q, err, v), false
 	}
+	dirty(&q)
+	if err := csptp.DecodeRequestTLV(&q, e); err != nil || q != v {
+		return fmt.Sprintf("decode(encode(v)) into a used destination = %+v (%v), v = %+v", q, err, v), false
+	}
 	return "", true
 }
 
@@ -155,6 +190,10 @@ func csptpRespRT(b []byte) (string, bool) {
 	}
 	if err := csptp.DecodeResponseTLV(&q, e); err != nil || q != v {
 		return fmt.Sprintf("decode(encode(v)) = %+v (%v), v = %+v", q, err, v), false
+	}
+	dirty(&q)
+	if err := csptp.DecodeResponseTLV(&q, e); err != nil || q != v {
+		return fmt.Sprintf("decode(encode(v)) into a used destination = %+v (%v), v = %+v", q, err, v), false
 	}
 	return "", true
 }
